@@ -72,7 +72,7 @@ func c09Counts(tier string) int64 {
 func init() {
 	Register(&Prop{
 		ID:          "C09",
-		Rule:        "workspaces of 1-4 journals from G with shared account/payee/commodity pools (chains, stars, diamonds, random DAGs), with and without workspace root, optionally with an unsaved edit in one open included file, or with the root's first include directive added by an unsaved edit after start-up (the included file and its own includes join the tree then); for the cursor on every occurrence of every account, commodity and payee, asked from the root and from every included file: references with and without declarations must be exactly the occurrences in the lexeme tables of the files in scope (workspace tree with a root, the file and its include closure without), each under the URI of the file that contains it; rename must return edits at exactly those spans, and applying them must give exactly the texts in which every occurrence reads the new name (nothing else changes), which must parse silently. Non-trivial = symbol with occurrences in >=2 files; distinct by workspace+symbol hash.",
+		Rule:        "workspaces of 1-4 journals from G with shared account/payee/commodity pools (chains, stars, diamonds, random DAGs), with and without workspace root, optionally with an unsaved edit in one open included file, or with the root's first include directive added by an unsaved edit after start-up (the included file and its own includes join the tree then); for the cursor on every occurrence of every account, commodity and payee, asked from the root and from every included file: references with and without declarations must be exactly the occurrences in the lexeme tables of the files in scope (workspace tree with a root, the file and its include closure without), each under the URI of the file that contains it; rename must return edits at exactly those spans, and applying them must give exactly the texts in which every occurrence reads the new name (nothing else changes), which must parse silently. In a third of the multi-file cases a last step deletes an open leaf file on disk and closes it: with no further notification, references and rename asked from the root must not mention that file any more and must still list everything else. Non-trivial = symbol with occurrences in >=2 files; distinct by workspace+symbol hash.",
 		Notes:       []string{"commodity occurrences in P/D/format lines are allowed but not required (the statement names amounts, costs, assertions and commodity directives)", "new names are plain (no quoting needed)"},
 		Cases:       c09Counts,
 		MustObserve: []string{"workspaces", "reference_requests", "rename_requests", "symbols_in_several_files"},
@@ -362,6 +362,78 @@ func runC09(c *Ctx, idx int64) {
 						fail("wrong-file", fmt.Sprintf("rename of %s %q edits %s, which is outside the scope of the request", sy.kind, sy.name, u), nil)
 						return
 					}
+				}
+			}
+		}
+	}
+	// last step: an included leaf file disappears - it is deleted on disk while open and then closed
+	// (a buffer that was never going to be saved). With no further notification, references and
+	// rename asked from the root must not mention it any more: it is in nobody's include tree.
+	if nf >= 2 && !dynamic && isOpen[0] && r.Chance(1, 3) {
+		victim := -1
+		for f := len(w.Names) - 1; f >= 1; f-- {
+			inScope := false
+			for _, x := range w.Scope(0) {
+				if x == f {
+					inScope = true
+				}
+			}
+			if inScope && isOpen[f] && len(w.Includes[f]) == 0 {
+				victim = f
+				break
+			}
+		}
+		if victim > 0 {
+			os.Remove(filepath.Join(dir, w.Names[victim]))
+			s.Close(docURI(victim))
+			s.Drain()
+			c.Count("vanished_file_cases", 1)
+			scope := w.Scope(0)
+			for _, sy := range syms {
+				occs := w.occurrences(sy.kind, sy.name, scope)
+				inVictim := false
+				for _, o := range occs {
+					if o.File == victim {
+						inVictim = true
+					}
+				}
+				if !inVictim {
+					continue
+				}
+				for _, o := range occs {
+					if o.File != 0 || o.Opt || o.Decl {
+						continue
+					}
+					pos := protocol.TextDocumentPositionParams{TextDocument: protocol.TextDocumentIdentifier{URI: docURI(0)},
+						Position: protocol.Position{Line: uint32(o.Line), Character: uint32(o.U0 + (o.U1-o.U0)/2)}}
+					got, _ := s.Srv.References(ctx, &protocol.ReferenceParams{TextDocumentPositionParams: pos, Context: protocol.ReferenceContext{IncludeDeclaration: true}})
+					c.Count("vanished_file_probes", 1)
+					gotSet := map[string]bool{}
+					for _, loc := range got {
+						gf := w.FileOfURI(s, loc.URI)
+						if gf == victim {
+							fail("spurious-vanished-file("+sy.kind+")", fmt.Sprintf("references for %s %q asked from %s still lists %s %d:%d after that file was deleted on disk and closed", sy.kind, sy.name, w.Names[0], w.Names[victim], loc.Range.Start.Line, loc.Range.Start.Character), map[string]any{"vanished": w.Names[victim]})
+							return
+						}
+						gotSet[fmt.Sprintf("%d@%d:%d-%d", gf, loc.Range.Start.Line, loc.Range.Start.Character, loc.Range.End.Character)] = true
+					}
+					for _, x := range occs {
+						if x.File != victim && !x.Opt && !gotSet[x.key()] {
+							fail("missing-after-vanish("+sy.kind+")", fmt.Sprintf("references for %s %q asked from %s misses %s after %s was deleted and closed", sy.kind, sy.name, w.Names[0], x.key(), w.Names[victim]), map[string]any{"vanished": w.Names[victim]})
+							return
+						}
+					}
+					newName := map[string]string{"account": "renamed:acct", "commodity": "XYZ", "payee": "Renamed Payee"}[sy.kind]
+					we, _ := s.Srv.Rename(ctx, &protocol.RenameParams{TextDocumentPositionParams: pos, NewName: newName})
+					if we != nil {
+						for u := range we.Changes {
+							if w.FileOfURI(s, u) == victim {
+								fail("wrong-file", fmt.Sprintf("rename of %s %q edits %s, which was deleted on disk and closed", sy.kind, sy.name, u), map[string]any{"vanished": w.Names[victim]})
+								return
+							}
+						}
+					}
+					break
 				}
 			}
 		}
